@@ -278,7 +278,90 @@ func c16Menu() []c16Item {
 	return m
 }
 
+// runC16SharedContext: two documents converted one after the other with the SAME parser.Context handed in through
+// parser.WithContext (the documented way to get at per-parse data): each rendered document must be consistent on its own.
+// Link reference definitions legitimately survive in a reused context; nothing in the oracle depends on them.
+func runC16SharedContext(r *core.Run) {
+	menu := c16Menu()
+	var docs [][]byte
+	for i := range menu {
+		for j := range menu {
+			docs = append(docs, []byte(menu[i].md+"\n\n"+menu[j].md+"\n"))
+		}
+	}
+	firsts := docs
+	if r.Quick() {
+		// quick: the first document is one of the one-item documents or of the two-item documents that define and use a label
+		firsts = nil
+		for i := range menu {
+			firsts = append(firsts, []byte(menu[i].md+"\n"))
+			if menu[i].def != 0 {
+				for j := range menu {
+					if len(menu[j].refs) > 0 {
+						firsts = append(firsts, []byte(menu[j].md+"\n\n"+menu[i].md+"\n"))
+					}
+				}
+			}
+		}
+	}
+	for _, cn := range []string{"footnote", "all+xhtml"} {
+		cfg := core.MustCfg(cn)
+		s := r.Sub("shared-context/"+cn, fmt.Sprintf("every ordered pair (first of %d, second of the %d two-item documents of the menu), converted one after the other on one instance with one parser.Context passed through parser.WithContext, under %s: both outputs satisfy the output-consistency oracle", len(firsts), len(docs), cn))
+		s.Planned = int64(2 * len(firsts) * len(docs))
+		s.Bound = fmt.Sprintf("%d × %d ordered pairs", len(firsts), len(docs))
+		complete := core.ForEachIndex(len(firsts), core.Workers(), func(w int) func(int) {
+			md := cfg.New()
+			var buf bytes.Buffer
+			return func(i int) {
+				for j := range docs {
+					pc := parser.NewContext()
+					for step, d := range [][]byte{firsts[i], docs[j]} {
+						buf.Reset()
+						var pan any
+						var err error
+						func() {
+							defer func() { pan = recover() }()
+							err = md.Convert(d, &buf, parser.WithContext(pc))
+						}()
+						s.Evals.Add(1)
+						hist := []string{"pc := parser.NewContext()", "Convert(" + core.Q(firsts[i]) + ", WithContext(pc))"}
+						if step == 1 {
+							hist = append(hist, "Convert("+core.Q(docs[j])+", WithContext(pc))")
+						}
+						if pan != nil || err != nil {
+							s.Violate("convert-failed:shared-context", cfg.String(), d, hist, fmt.Sprint("panic=", pan, " err=", err), "", "")
+							md = cfg.New()
+							break
+						}
+						probs, items, sups, lerr := footnoteOracle(buf.Bytes())
+						if lerr != nil {
+							s.Violate("lex:"+lerr.Code, cfg.String(), d, hist, lerr.Error(), "", buf.String())
+							continue
+						}
+						for _, p := range probs {
+							s.Violate(p.code+"|shared-context", cfg.String(), d, hist, p.msg, "consistent footnote numbering and cross-links", buf.String())
+						}
+						if step == 1 && (items > 0 || sups > 0) {
+							s.Distinct(core.HashMix(core.Hash(firsts[i]), core.Hash(buf.Bytes())))
+						}
+					}
+				}
+				if i%(len(firsts)/5+1) == 0 {
+					s.AddSample([]string{core.Q(firsts[i]), core.Q(docs[(i*7+3)%len(docs)])})
+				}
+			}
+		}, r.Expired)
+		if !complete {
+			s.Incomplete("internal deadline reached")
+		}
+		s.States.Store(int64(len(firsts) * len(docs)))
+		s.Transitions.Store(s.Evals.Load())
+		s.Done()
+	}
+}
+
 func runC16(r *core.Run) {
+	runC16SharedContext(r)
 	runC16Perms(r)
 	runC16Prefix(r)
 	runC16PrefixLengths(r)
